@@ -57,6 +57,9 @@ class Fixture(object):
         finally:
             protocol.Lock = old_lock
         conn = self.conn
+        for attr in ("_cleanup_lock", "_proxy_count_lock"):
+            if hasattr(conn, attr):
+                setattr(conn, attr, sim.QuietSimLock(s, attr))
         self.white = True
         try:
             conn._sendlock.name = "_sendlock"
